@@ -172,6 +172,7 @@ def build_uod(log, hw):
          .with_command(name="Forever", arg_parse_fn=None, **mk("Forever"))
          .with_command(name="OvA", arg_parse_fn=None, **mk("OvA", complete_after=5))
          .with_command(name="OvB", arg_parse_fn=None, **mk("OvB", complete_after=5))
+         .with_command(name="OvC", arg_parse_fn=None, **mk("OvC", complete_after=5))
          .with_command(name="Fail", arg_parse_fn=None, **mk("Fail", fail_at=1))
          .with_command(name="Loop1", arg_parse_fn=None, **mk("Loop1", writes=("Out1", "iter")))
          .with_command_regex_arguments(name="Set1", arg_parse_regex=RegexNumber(units=None),
@@ -179,6 +180,7 @@ def build_uod(log, hw):
          .with_command_regex_arguments(name="Set2", arg_parse_regex=RegexNumber(units=["L/h", "L/min"]),
                                        **mk("Set2", complete_after=1, writes=("Out2", "arg")))
          .with_command_overlap(["OvA", "OvB"])
+         .with_command_overlap(["OvB", "OvC"])           # OvB is in two overlap declarations; OvA and OvC do not overlap
          .with_accumulated_volume("Vol"))
     uod = b.build()
     return uod
